@@ -3,14 +3,17 @@
   specification's bookkeeping) kept by every operation, the enabled clauses for one step, and the
   induction over the operation list.
 -/
-import IcingaProofs.C05.Flex
+import IcingaProofs.C05.Started
 
 namespace Icinga.C05
 
 /-- The clauses of the specification that are proved of every trace of the model: all of them except
-    `started_when_triggered` and `end_has_start`, which are false of the code (F-C05c). -/
+    `fixed_started_when_triggered` and `fixed_end_has_start` — a DowntimeStart request for every *fixed*
+    downtime that took effect —, which are false of the code (F-C05c), and
+    `trigger_not_before_start` (F-C05e).  Their flexible counterparts
+    `started_when_triggered` and `end_has_start` are proved. -/
 def coreMask : Clause → Bool
-  | .startedWhenTriggered | .endHasStart => false
+  | .fixedStartedWhenTriggered | .fixedEndHasStart | .triggerNotBeforeStart => false
   | _ => true
 
 /-- Everything that is known of a reachable model state and the bookkeeping that follows it. -/
@@ -23,6 +26,7 @@ structure TInv (T : Int) (sp : SpecSt) (st : St) : Prop where
   link : LinkInv st.dts
   unch : UnchInv st.dts
   qinv : QInv st
+  xinv : XInv sp st
 
 theorem tinv_init (k : Kind) : TInv 990 (specInit k) (initSt k) where
   rel := ⟨rfl, rfl, fun h => by simp [specInit] at h, fun _ => rfl, rfl, rfl, Pw.nil⟩
@@ -33,6 +37,7 @@ theorem tinv_init (k : Kind) : TInv 990 (specInit k) (initSt k) where
   link := fun d hd => by simp [initSt] at hd
   unch := fun d hd => by simp [initSt] at hd
   qinv := fun d hd => by simp [initSt] at hd
+  xinv := Pw.nil
 
 theorem tinv_step {T : Int} {sp : SpecSt} {st : St} (h : TInv T sp st) (op : Op) (hT : T ≤ op.now)
     (hop : opOK op) : TInv op.now (specNext sp op (stepObs st op).2) (step st op).1 := by
@@ -45,7 +50,8 @@ theorem tinv_step {T : Int} {sp : SpecSt} {st : St} (h : TInv T sp st) (op : Op)
     wfl := (step_cascade st op h.wfl h.sinv.1 hnow hop).2
     link := link_step st op h.wfl.1 h.wfl.2.2 h.sinv.1 hnow hop h.link
     unch := unch_step st op h.wfl h.unch
-    qinv := qinv_step st op h.qinv }
+    qinv := qinv_step st op h.qinv
+    xinv := xinv_step sp st op h.rel h.wfl.1 h.qinv h.xinv }
 
 theorem specStep_core {T : Int} {sp : SpecSt} {st : St} (h : TInv T sp st) (op : Op) (hT : T ≤ op.now)
     (hop : opOK op) : specStepM coreMask sp op (stepObs st op).2 = none := by
@@ -62,7 +68,8 @@ theorem specStep_core {T : Int} {sp : SpecSt} {st : St} (h : TInv T sp st) (op :
     chkCascade_model sp st op hrel hnd hcl h.link, chkFlexible_model sp st op hrel h.wfl h.unch hop,
     chkFixedStarted_model sp st op hrel h.wfl hnow,
     chkDepth_model sp st op hrel hnd, chkWriteOnce_model sp st op hrel hnd, chkWindow_model sp st op hrel hnd,
-    chkWindowGone_model sp st op hrel hnd, chkStartOnce_model sp st op hrel hnd op.now hs']
+    chkWindowGone_model sp st op hrel hnd, chkStartOnce_model sp st op hrel hnd op.now hs',
+    chkStarted_model sp st op hrel hnd h.qinv h.xinv, chkEndHasStart_model sp st op hrel hnd h.qinv h.xinv]
   simp
 
 theorem trace_core (ops : List Op) : ∀ (sp : SpecSt) (st : St) (T : Int), TInv T sp st → WF T ops →
@@ -86,5 +93,24 @@ theorem tinv_run (ops : List Op) : ∀ (sp : SpecSt) (st : St) (T : Int), TInv T
     obtain ⟨h1, h2, h3⟩ := hw
     have := ih _ _ op.now (tinv_step h op h1 h2) h3
     simpa [run] using this
+
+/-- The instant of the last operation (`T` if there is none). -/
+def endTime : Int → List Op → Int
+  | T, [] => T
+  | _, op :: ops => endTime op.now ops
+
+/-- … with the time bound of the invariants made explicit: the instant of the last operation. -/
+theorem tinv_run_at (ops : List Op) : ∀ (sp : SpecSt) (st : St) (T : Int), TInv T sp st → WF T ops →
+    ∃ sp', TInv (endTime T ops) sp' (run st ops) := by
+  induction ops with
+  | nil => intro sp st T h _; exact ⟨sp, h⟩
+  | cons op ops ih =>
+    intro sp st T h hw
+    obtain ⟨h1, h2, h3⟩ := hw
+    have := ih _ _ op.now (tinv_step h op h1 h2) h3
+    simpa [run, endTime] using this
+
+theorem run_snoc (st : St) (ops : List Op) (op : Op) : run st (ops ++ [op]) = (step (run st ops) op).1 := by
+  simp [run, List.foldl_append]
 
 end Icinga.C05
